@@ -1297,6 +1297,55 @@ CONDITIONS.append({"fn": "c14_scope_after_interrupt", "quick": 60, "thorough": 2
 CONDITIONS.append({"fn": "c14_scope_after_lax_error", "quick": 60, "thorough": 200})
 
 
+# ---- arguments of one tag are all evaluated in the enclosing scope: a later argument never sees an earlier one --------
+_AP = {"ab": "[{{ a }},{{ b }}]"}
+_AENV = Environment(extra=True, loader=_CDL(_AP, auto_reload=False))
+_AENV.get_template("ab")
+_ARG_SRC = [
+    "{% include 'ab', a: v, b: a %}",
+    "{% include 'ab', a: 'arg', b: a %}",
+    "{% render 'ab', a: v, b: a %}",
+    "{% with a: v, b: a %}[{{ a }},{{ b }}]{% endwith %}",
+    "{% macro m a, b %}[{{ a }},{{ b }}]{% endmacro %}{% call m a: v, b: a %}",
+    "{% macro m a, b: 5 %}[{{ a }},{{ b }}]{% endmacro %}{% call m v, b: a %}",
+    "{% for i in (1..1) %}{% include 'ab', a: v, b: a %}{% endfor %}",
+    "{% assign a = w %}{% include 'ab', a: v, b: a %}",
+    "{% capture a %}{{ w }}{% endcapture %}{% render 'ab', a: v, b: a %}",
+    "{% include 'ab', b: a, a: v %}",
+    "{% include 'ab', a: v, b: a, a: w %}",
+]
+_ARG_T = [_AENV.from_string(_s) for _s in _ARG_SRC]
+
+
+def args_case(k, v, w, has_a, ga):
+    data = {"v": v, "w": w}
+    if has_a:
+        data["a"] = ga
+    out = _ARG_T[k].render(**data)
+    outer = str(w) if k in (7, 8) else (str(ga) if has_a else "")
+    first = "arg" if k == 1 else (str(w) if k == 10 else str(v))
+    return out, "[%s,%s]" % (first, outer)
+
+
+def c14_args_in_caller_scope(k: int, v: int, w: int, has_a: bool, ga: int) -> bool:
+    """
+    pre: 0 <= k <= 10 and 0 <= v <= 9 and 0 <= w <= 9 and 0 <= ga <= 9
+    post: _
+    """
+    if excluded("c14_args_in_caller_scope", locals()):
+        return True
+    kk = pick(list(range(len(_ARG_SRC))), k)
+    if kk is None:
+        return True
+    out, exp = args_case(kk, v, w, has_a, ga)
+    return finish(out == exp)
+
+
+DETAIL = globals().get("DETAIL", {})
+DETAIL["c14_args_in_caller_scope"] = lambda k, v, w, has_a, ga: {"source": _ARG_SRC[k], "observed_expected": args_case(k, v, w, has_a, ga)}
+CONDITIONS.append({"fn": "c14_args_in_caller_scope", "quick": 60, "thorough": 120})
+
+
 ASSUMPTIONS = [
     "template sources are concrete skeletons generated in harness/c14.py (the name x bound by for, tablerow, with, macro, capture, assign, include, render, increment, decrement in every nesting order of two, thorough: three); the bound values, the four global layers' values and their presence are symbolic",
     "values are strings of length <= 1 (symbolic ints would be realised by str()); falsy non-string values come from a pool (c14_falsy_layers)",
